@@ -1,1 +1,883 @@
-fn main() {}
+//! C13 driver: builds M2Model / SkinFile / AnimFile objects from the shapes TLC generated (distinct values
+//! everywhere, derived from (shape, VERIF_SEED)), drives the crate's public writers / parsers / converters and
+//! records what it observed: per-section content tokens, byte tokens, and the arrays an independent walker
+//! finds in the produced bytes using ONLY the header positions and element sizes TLC emitted with the shape.
+//! The driver records; Trace_M2Layout.tla decides.
+use std::io::Cursor;
+use wow_m2::anim::{
+    AnimBoneAnimation, AnimEntry, AnimFile, AnimFormat, AnimHeader, AnimMetadata, AnimRotation, AnimScaling, AnimSection,
+    AnimSectionHeader, AnimTranslation, LegacyStructureHints,
+};
+use wow_m2::chunks::animation::{M2Animation, M2AnimationBlock, M2AnimationTrack, M2InterpolationType, M2Range};
+use wow_m2::chunks::attachment::M2Attachment;
+use wow_m2::chunks::bone::{M2Bone, M2BoneFlags};
+use wow_m2::chunks::camera::{M2Camera, M2CameraFlags};
+use wow_m2::chunks::color_animation::{M2Color, M2ColorAnimation};
+use wow_m2::chunks::event::M2Event;
+use wow_m2::chunks::light::{M2Light, M2LightFlags, M2LightType};
+use wow_m2::chunks::m2_track::{M2Track, M2TrackBase};
+use wow_m2::chunks::material::{M2BlendMode, M2Material, M2RenderFlags};
+use wow_m2::chunks::particle_emitter::M2ParticleEmitter;
+use wow_m2::chunks::ribbon_emitter::M2RibbonEmitter;
+use wow_m2::chunks::texture::{M2Texture, M2TextureFlags, M2TextureType};
+use wow_m2::chunks::texture_animation::{M2TextureAnimation, M2TextureAnimationType};
+use wow_m2::chunks::transparency_animation::M2TransparencyAnimation;
+use wow_m2::chunks::vertex::M2Vertex;
+use wow_m2::common::{C2Vector, C3Vector, FixedString, M2Array, M2ArrayString, M2Parse, M2Vec, Quaternion};
+use wow_m2::header::{M2Header, M2ModelFlags};
+use wow_m2::model::*;
+use wow_m2::skin::{OldSkinHeader, SkinBatch, SkinFile, SkinG, SkinHeader, SkinSubmesh};
+use wow_m2::{parse_m2, M2Converter, M2Format, M2Model, M2Version};
+use wverif_common::*;
+
+// ---------------------------------------------------------------------------------------------
+// tokens: digest of the Debug rendering with every `*offset: <n>` projected away (offsets are derived
+// positions, not content; the key-frame bytes they point at are tokenised separately as `<section>+`)
+// ---------------------------------------------------------------------------------------------
+fn elide_offsets(s: &str) -> String {
+    let b = s.as_bytes();
+    let mut o = String::with_capacity(s.len());
+    let pat = b"offset: ";
+    let mut i = 0;
+    while i < b.len() {
+        if b[i..].starts_with(pat) {
+            o.push_str("offset: #");
+            i += pat.len();
+            if b[i..].starts_with(b"Some(") {
+                i += 5;
+                while i < b.len() && b[i].is_ascii_digit() {
+                    i += 1;
+                }
+                i += 1; // ')'
+            } else if b[i..].starts_with(b"None") {
+                i += 4;
+            } else {
+                while i < b.len() && b[i].is_ascii_digit() {
+                    i += 1;
+                }
+            }
+        } else {
+            o.push(b[i] as char);
+            i += 1;
+        }
+    }
+    o
+}
+fn ptok<T: std::fmt::Debug>(v: &T) -> String {
+    tok(elide_offsets(&format!("{:?}", v)).as_bytes())
+}
+fn pair(t: String, x: String) -> Value {
+    json!([t, x])
+}
+fn same<T: std::fmt::Debug>(v: &T) -> Value {
+    let t = ptok(v);
+    pair(t.clone(), t)
+}
+
+struct Vals {
+    rng: Rng,
+    extreme: bool,
+    n: u32,
+}
+impl Vals {
+    fn u(&mut self) -> u32 {
+        self.n += 1;
+        (self.rng.next_u32() & 0x7FFF_0000) | (self.n & 0xFFFF)
+    }
+    fn u16(&mut self) -> u16 {
+        self.n += 1;
+        (self.n as u16).wrapping_mul(257) ^ (self.rng.next_u32() as u16 & 0x0F00)
+    }
+    fn f(&mut self) -> f32 {
+        self.n += 1;
+        if self.extreme {
+            const X: [f32; 8] = [f32::MAX, f32::MIN, f32::MIN_POSITIVE, -0.0, 1.0e-40, f32::INFINITY, f32::NEG_INFINITY, 16777217.0];
+            let k = (self.n as usize + self.rng.below(8) as usize) % 10;
+            if k < 8 {
+                return X[k];
+            }
+        }
+        self.n as f32 * 0.25 + self.rng.f32()
+    }
+    fn v3(&mut self) -> C3Vector {
+        C3Vector { x: self.f(), y: self.f(), z: self.f() }
+    }
+    fn v2(&mut self) -> C2Vector {
+        C2Vector { x: self.f(), y: self.f() }
+    }
+    fn col(&mut self) -> M2Color {
+        M2Color { r: self.f(), g: self.f(), b: self.f() }
+    }
+    fn bytes(&mut self, n: usize) -> Vec<u8> {
+        (0..n).map(|_| {
+            self.n += 1;
+            (self.n as u8) ^ self.rng.byte()
+        }).collect()
+    }
+}
+
+/// fake "original" offsets of key-frame blobs: distinct, far outside any file we write
+struct Ctr(u32);
+impl Ctr {
+    fn next(&mut self) -> u32 {
+        self.0 += 0x100;
+        self.0
+    }
+}
+struct Blob {
+    ranges: Vec<u8>,
+    ts: Vec<u8>,
+    vals: Vec<u8>,
+    o_r: u32,
+    o_t: u32,
+    o_v: u32,
+}
+fn blk<T: M2Parse + Clone>(vals: Vec<T>, v: &mut Vals, c: &mut Ctr) -> (M2AnimationBlock<T>, Blob) {
+    let n = vals.len() as u32;
+    let (o_r, o_t, o_v) = (c.next(), c.next(), c.next());
+    let mut vb = Vec::new();
+    for x in &vals {
+        x.write(&mut vb).unwrap();
+    }
+    let ts: Vec<u8> = (0..n).flat_map(|i| (i * 33 + (v.u() & 0xF)).to_le_bytes()).collect();
+    let ranges = v.bytes(8);
+    let track = M2AnimationTrack {
+        interpolation_type: M2InterpolationType::Linear,
+        global_sequence: -1,
+        interpolation_ranges: M2Array::new(1, o_r),
+        timestamps: M2Array::new(n, o_t),
+        values: M2Vec { array: M2Array::new(n, o_v), data: vals },
+    };
+    (M2AnimationBlock::new(track), Blob { ranges, ts, vals: vb, o_r, o_t, o_v })
+}
+macro_rules! ab {
+    ($kf:expr, $v:expr, $c:expr, $raws:expr, $Raw:ident, $idxf:ident, $idx:expr, $tt:expr, $mk:expr) => {{
+        if $kf {
+            let vals = vec![$mk, $mk];
+            let (b, bl) = blk(vals, $v, $c);
+            $raws.push($Raw {
+                $idxf: $idx,
+                track_type: $tt,
+                interpolation_ranges: bl.ranges,
+                timestamps: bl.ts,
+                values: bl.vals,
+                original_ranges_offset: bl.o_r,
+                original_timestamps_offset: bl.o_t,
+                original_values_offset: bl.o_v,
+            });
+            b
+        } else {
+            M2AnimationBlock::default()
+        }
+    }};
+}
+
+fn version_of(name: &str) -> M2Version {
+    match name {
+        "Vanilla" => M2Version::Vanilla,
+        "TBC" => M2Version::TBC,
+        "WotLK" => M2Version::WotLK,
+        "Cataclysm" => M2Version::Cataclysm,
+        "MoP" => M2Version::MoP,
+        _ => tool_error("unknown version"),
+    }
+}
+
+fn card(c: &Value, sec: &str) -> usize {
+    c["card"][sec].as_u64().unwrap_or_else(|| tool_error(&format!("card {sec} missing"))) as usize
+}
+
+fn bone_track<T>(kf: bool, vn: u32, elem: usize, v: &mut Vals, c: &mut Ctr, raws: &mut Vec<BoneAnimationRaw>, bi: usize, tt: TrackType) -> M2Track<T> {
+    let pre = vn < 264;
+    if !kf {
+        return M2Track {
+            base: M2TrackBase { interpolation_type: M2InterpolationType::None, global_sequence: 65535 },
+            ranges: if pre { Some(M2Array::new(0, 0)) } else { None },
+            timestamps: M2Array::new(0, 0),
+            values: M2Array::new(0, 0),
+        };
+    }
+    let (o_t, o_v, o_r) = (c.next(), c.next(), c.next());
+    let ts: Vec<u8> = (0..2u32).flat_map(|i| (i * 40 + (v.u() & 0xF)).to_le_bytes()).collect();
+    let vals = v.bytes(2 * elem);
+    let ranges = if pre { Some(v.bytes(8)) } else { None };
+    raws.push(BoneAnimationRaw {
+        bone_index: bi,
+        track_type: tt,
+        timestamps: ts,
+        values: vals,
+        ranges,
+        original_timestamps_offset: o_t,
+        original_values_offset: o_v,
+        original_ranges_offset: if pre { Some(o_r) } else { None },
+    });
+    M2Track {
+        base: M2TrackBase { interpolation_type: M2InterpolationType::Linear, global_sequence: 65535 },
+        ranges: if pre { Some(M2Array::new(1, o_r)) } else { None },
+        timestamps: M2Array::new(2, o_t),
+        values: M2Array::new(2, o_v),
+    }
+}
+
+fn build_model(c: &Value, seed: u64, label: &str) -> M2Model {
+    let ver = version_of(gs(c, "ver"));
+    let vn = gi(c, "vn") as u32;
+    let kf = gb(c, "kf");
+    let mut v = Vals { rng: Rng::derive(seed, label), extreme: gs(c, "floats") == "extreme", n: 0 };
+    let mut ctr = Ctr(0x0100_0000);
+    let mut m = M2Model::default();
+    m.header = M2Header::new(ver);
+    m.header.flags = M2ModelFlags::TILT_X | M2ModelFlags::HAS_BONES;
+    m.header.bounding_box_min = [v.f(), v.f(), v.f()];
+    m.header.bounding_box_max = [v.f(), v.f(), v.f()];
+    m.header.bounding_sphere_radius = v.f();
+    m.header.collision_box_min = [v.f(), v.f(), v.f()];
+    m.header.collision_box_max = [v.f(), v.f(), v.f()];
+    m.header.collision_sphere_radius = v.f();
+    m.name = match card(c, "name") {
+        0 => None,
+        1 => Some(format!("Mdl{}", v.u() % 1000)),
+        _ => Some((0..300).map(|i| (b'A' + ((i + v.n as usize) % 26) as u8) as char).collect()),
+    };
+    m.global_sequences = (0..card(c, "global_sequences")).map(|_| v.u()).collect();
+    for _ in 0..card(c, "animations") {
+        let old = vn <= 256;
+        m.animations.push(M2Animation {
+            animation_id: v.u16(),
+            sub_animation_id: v.u16(),
+            start_timestamp: v.u(),
+            end_timestamp: if old { Some(v.u()) } else { None },
+            movement_speed: v.f(),
+            flags: v.u(),
+            frequency: v.u16() as i16,
+            padding: v.u16(),
+            replay: if old { Some(M2Range { minimum: v.f(), maximum: v.f() }) } else { None },
+            minimum_extent: if old { None } else { Some([v.f(), v.f(), v.f()]) },
+            maximum_extent: if old { None } else { Some([v.f(), v.f(), v.f()]) },
+            extent_radius: if old { None } else { Some(v.f()) },
+            next_animation: if old { None } else { Some(v.u16() as i16) },
+            aliasing: if old { None } else { Some(v.u16()) },
+        });
+    }
+    m.animation_lookup = (0..card(c, "animation_lookup")).map(|_| v.u16()).collect();
+    let nb = card(c, "bones");
+    for bi in 0..nb {
+        let translation = bone_track(kf, vn, 12, &mut v, &mut ctr, &mut m.raw_data.bone_animation_data, bi, TrackType::Translation);
+        let rotation = bone_track(kf, vn, 8, &mut v, &mut ctr, &mut m.raw_data.bone_animation_data, bi, TrackType::Rotation);
+        let scale = bone_track(kf, vn, 12, &mut v, &mut ctr, &mut m.raw_data.bone_animation_data, bi, TrackType::Scale);
+        m.bones.push(M2Bone {
+            bone_id: (v.u() % 500) as i32,
+            flags: M2BoneFlags::from_bits_retain(v.u() & 0x3FF),
+            parent_bone: bi as i16 - 1,
+            submesh_id: v.u16(),
+            unknown: [0, 0],
+            bone_name_crc: if vn >= 260 { Some(v.u()) } else { None },
+            translation,
+            rotation,
+            scale,
+            pivot: v.v3(),
+        });
+    }
+    m.key_bone_lookup = (0..card(c, "key_bone_lookup")).map(|_| v.u16()).collect();
+    for i in 0..card(c, "vertices") {
+        let bidx = if nb > 0 { (i % nb) as u8 } else { 0 };
+        m.vertices.push(M2Vertex {
+            position: v.v3(),
+            bone_weights: [200, 55, (v.u() & 0x3F) as u8, 0],
+            bone_indices: [bidx, 0, 0, 0],
+            normal: v.v3(),
+            tex_coords: v.v2(),
+            tex_coords2: Some(v.v2()),
+        });
+    }
+    for i in 0..card(c, "textures") {
+        // the second texture of three is a "hardcoded" one without a file name
+        let named = i != 1;
+        let data: Vec<u8> = if named { format!("Tex\\Dir{}\\t{}.blp", v.u() % 97, i).into_bytes() } else { Vec::new() };
+        let array = if named { M2Array::new(data.len() as u32 + 1, ctr.next()) } else { M2Array::new(0, 0) };
+        m.textures.push(M2Texture {
+            texture_type: if named { M2TextureType::Hardcoded } else { M2TextureType::Body },
+            flags: M2TextureFlags::from_bits_retain(v.u() & 3),
+            filename: M2ArrayString { string: FixedString { data }, array },
+        });
+    }
+    for _ in 0..card(c, "materials") {
+        m.materials.push(M2Material {
+            flags: M2RenderFlags::from_bits_retain(v.u16() & 0x1F),
+            blend_mode: M2BlendMode::from_bits_retain(v.u16() & 7),
+        });
+    }
+    let r = &mut m.raw_data;
+    r.bone_lookup_table = (0..card(c, "bone_lookup_table")).map(|_| v.u16()).collect();
+    r.texture_lookup_table = (0..card(c, "texture_lookup_table")).map(|_| v.u16()).collect();
+    r.texture_units = (0..card(c, "texture_units")).map(|_| v.u16()).collect();
+    r.transparency_lookup_table = (0..card(c, "transparency_lookup_table")).map(|_| v.u16()).collect();
+    r.texture_animation_lookup = (0..card(c, "texture_animation_lookup")).map(|_| v.u16()).collect();
+    r.attachment_lookup_table = (0..card(c, "attachment_lookup_table")).map(|_| v.u16()).collect();
+    r.camera_lookup_table = (0..card(c, "camera_lookup_table")).map(|_| v.u16()).collect();
+    r.bounding_triangles = v.bytes(2 * 3 * card(c, "bounding_triangles"));
+    r.bounding_vertices = v.bytes(12 * card(c, "bounding_vertices"));
+    r.bounding_normals = v.bytes(12 * card(c, "bounding_normals"));
+    if vn <= 263 {
+        let sub = if vn < 260 { 32 } else { 48 };
+        for k in 0..card(c, "views") {
+            let n = 1 + 2 * k; // 1, 3, 5 elements in the sub-arrays of successive views
+            let mut mv = vec![0u8; 44];
+            mv[40..44].copy_from_slice(&(v.u() % 256).to_le_bytes());
+            r.embedded_skins.push(EmbeddedSkinRaw {
+                model_view: mv,
+                indices: v.bytes(2 * n),
+                triangles: v.bytes(2 * 3 * n),
+                properties: v.bytes(4 * n),
+                submeshes: v.bytes(sub * n),
+                batches: v.bytes(24 * n),
+                original_model_view_offset: ctr.next(),
+                original_indices_offset: ctr.next(),
+                original_triangles_offset: ctr.next(),
+                original_properties_offset: ctr.next(),
+                original_submeshes_offset: ctr.next(),
+                original_batches_offset: ctr.next(),
+            });
+        }
+    }
+    for i in 0..card(c, "particle_emitters") {
+        let mut e = M2ParticleEmitter::parse(&mut Cursor::new(vec![0u8; 4096]), vn).unwrap_or_else(|e| tool_error(&format!("zero emitter: {e:?}")));
+        e.id = v.u();
+        e.position = v.v3();
+        e.bone_index = v.u16();
+        e.texture_index = v.u16();
+        e.lifetime = v.f();
+        e.emission_rate = v.f();
+        e.gravity = v.f();
+        e.max_initial_rotation = v.f();
+        e.mid_point_color = v.col();
+        e.unknown_1 = v.u();
+        e.unknown_2 = v.f();
+        let rs = &mut r.particle_animation_data;
+        use ParticleTrackType as P;
+        e.emission_speed_animation = ab!(kf, &mut v, &mut ctr, rs, ParticleAnimationRaw, emitter_index, i, P::EmissionSpeed, v.f());
+        e.emission_rate_animation = ab!(kf, &mut v, &mut ctr, rs, ParticleAnimationRaw, emitter_index, i, P::EmissionRate, v.f());
+        e.emission_area_animation = ab!(kf, &mut v, &mut ctr, rs, ParticleAnimationRaw, emitter_index, i, P::EmissionArea, v.f());
+        e.xy_scale_animation = ab!(kf, &mut v, &mut ctr, rs, ParticleAnimationRaw, emitter_index, i, P::XYScale, v.v2());
+        e.z_scale_animation = ab!(kf, &mut v, &mut ctr, rs, ParticleAnimationRaw, emitter_index, i, P::ZScale, v.f());
+        e.color_animation = ab!(kf, &mut v, &mut ctr, rs, ParticleAnimationRaw, emitter_index, i, P::Color, v.col());
+        e.transparency_animation = ab!(kf, &mut v, &mut ctr, rs, ParticleAnimationRaw, emitter_index, i, P::Transparency, v.f());
+        e.size_animation = ab!(kf, &mut v, &mut ctr, rs, ParticleAnimationRaw, emitter_index, i, P::Size, v.f());
+        e.intensity_animation = ab!(kf, &mut v, &mut ctr, rs, ParticleAnimationRaw, emitter_index, i, P::Intensity, v.f());
+        e.z_source_animation = ab!(kf, &mut v, &mut ctr, rs, ParticleAnimationRaw, emitter_index, i, P::ZSource, v.f());
+        m.particle_emitters.push(e);
+    }
+    for i in 0..card(c, "ribbon_emitters") {
+        let rs = &mut r.ribbon_animation_data;
+        use RibbonTrackType as R;
+        m.ribbon_emitters.push(M2RibbonEmitter {
+            bone_index: v.u() % 64,
+            position: v.v3(),
+            texture_indices: M2Array::new(0, 0),
+            material_indices: M2Array::new(0, 0),
+            color_animation: ab!(kf, &mut v, &mut ctr, rs, RibbonAnimationRaw, emitter_index, i, R::Color, v.col()),
+            alpha_animation: ab!(kf, &mut v, &mut ctr, rs, RibbonAnimationRaw, emitter_index, i, R::Alpha, v.f()),
+            height_above_animation: ab!(kf, &mut v, &mut ctr, rs, RibbonAnimationRaw, emitter_index, i, R::HeightAbove, v.f()),
+            height_below_animation: ab!(kf, &mut v, &mut ctr, rs, RibbonAnimationRaw, emitter_index, i, R::HeightBelow, v.f()),
+            edges_per_second: v.f(),
+            edge_lifetime: v.f(),
+            gravity: v.f(),
+            texture_rows: v.u16(),
+            texture_cols: v.u16(),
+            texture_slice: if vn >= 272 { Some(v.u16()) } else { None },
+            variation: if vn >= 272 { Some(v.u16()) } else { None },
+            id: v.u(),
+            flags: v.u(),
+        });
+    }
+    for i in 0..card(c, "texture_animations") {
+        let rs = &mut r.texture_animation_data;
+        use TextureTrackType as T;
+        m.texture_animations.push(M2TextureAnimation {
+            animation_type: [M2TextureAnimationType::Scroll, M2TextureAnimationType::Rotate, M2TextureAnimationType::Scale][i % 3],
+            translation_u: ab!(kf, &mut v, &mut ctr, rs, TextureAnimationRaw, animation_index, i, T::TranslationU, v.f()),
+            translation_v: ab!(kf, &mut v, &mut ctr, rs, TextureAnimationRaw, animation_index, i, T::TranslationV, v.f()),
+            rotation: ab!(kf, &mut v, &mut ctr, rs, TextureAnimationRaw, animation_index, i, T::Rotation, v.f()),
+            scale_u: ab!(kf, &mut v, &mut ctr, rs, TextureAnimationRaw, animation_index, i, T::ScaleU, v.f()),
+            scale_v: ab!(kf, &mut v, &mut ctr, rs, TextureAnimationRaw, animation_index, i, T::ScaleV, v.f()),
+        });
+    }
+    for i in 0..card(c, "color_animations") {
+        let rs = &mut r.color_animation_data;
+        m.color_animations.push(M2ColorAnimation {
+            color: ab!(kf, &mut v, &mut ctr, rs, ColorAnimationRaw, animation_index, i, ColorTrackType::Color, v.col()),
+            alpha: ab!(kf, &mut v, &mut ctr, rs, ColorAnimationRaw, animation_index, i, ColorTrackType::Alpha, v.u16()),
+        });
+    }
+    for i in 0..card(c, "transparency_animations") {
+        let rs = &mut r.transparency_animation_data;
+        m.transparency_animations.push(M2TransparencyAnimation {
+            alpha: ab!(kf, &mut v, &mut ctr, rs, TransparencyAnimationRaw, animation_index, i, TransparencyTrackType::Alpha, v.f()),
+        });
+    }
+    for i in 0..card(c, "events") {
+        let mut e = M2Event::new([b'$', b'E', b'0' + i as u8, b'A' + (v.u() % 26) as u8], (v.u() % 40) as i16);
+        e.data = v.u();
+        e.unknown = v.u16();
+        e.position = [v.f(), v.f(), v.f()];
+        e.interp_type = 1;
+        if kf {
+            let (o_r, o_t) = (ctr.next(), ctr.next());
+            let nr = if vn < 264 { 1 } else { 0 };
+            let ts: Vec<u8> = (0..2u32).flat_map(|k| (k * 50 + (v.u() & 0xF)).to_le_bytes()).collect();
+            let ranges = v.bytes(8 * nr);
+            e.ranges = if nr > 0 { M2Array::new(nr as u32, o_r) } else { M2Array::new(0, 0) };
+            e.times = M2Array::new(2, o_t);
+            r.event_data.push(EventRaw {
+                event_index: i,
+                ranges,
+                original_ranges_offset: if nr > 0 { o_r } else { 0 },
+                timestamps: ts,
+                original_timestamps_offset: o_t,
+            });
+        }
+        m.events.push(e);
+    }
+    for i in 0..card(c, "attachments") {
+        let rs = &mut r.attachment_animation_data;
+        m.attachments.push(M2Attachment {
+            id: v.u() % 60,
+            bone_index: (v.u() % 90) as i32,
+            position: v.v3(),
+            scale_animation: ab!(kf, &mut v, &mut ctr, rs, AttachmentAnimationRaw, attachment_index, i, AttachmentTrackType::Scale, v.f()),
+        });
+    }
+    for i in 0..card(c, "cameras") {
+        let rs = &mut r.camera_animation_data;
+        use CameraTrackType as C;
+        m.cameras.push(M2Camera {
+            camera_type: v.u() % 3,
+            fov: v.f(),
+            far_clip: v.f(),
+            near_clip: v.f(),
+            position_animation: ab!(kf, &mut v, &mut ctr, rs, CameraAnimationRaw, camera_index, i, C::Position, v.v3()),
+            position_base: v.v3(),
+            target_position_animation: ab!(kf, &mut v, &mut ctr, rs, CameraAnimationRaw, camera_index, i, C::TargetPosition, v.v3()),
+            target_position_base: v.v3(),
+            roll_animation: ab!(kf, &mut v, &mut ctr, rs, CameraAnimationRaw, camera_index, i, C::Roll, v.f()),
+            id: if vn >= 264 { v.u() } else { 0 },
+            flags: if vn >= 264 { M2CameraFlags::from_bits_retain(v.u16() & 3) } else { M2CameraFlags::empty() },
+        });
+    }
+    for i in 0..card(c, "lights") {
+        let rs = &mut r.light_animation_data;
+        use LightTrackType as L;
+        m.lights.push(M2Light {
+            light_type: [M2LightType::Directional, M2LightType::Point, M2LightType::Spot][i % 3],
+            bone_index: v.u16(),
+            position: v.v3(),
+            ambient_color_animation: ab!(kf, &mut v, &mut ctr, rs, LightAnimationRaw, light_index, i, L::AmbientColor, v.col()),
+            diffuse_color_animation: ab!(kf, &mut v, &mut ctr, rs, LightAnimationRaw, light_index, i, L::DiffuseColor, v.col()),
+            attenuation_start_animation: ab!(kf, &mut v, &mut ctr, rs, LightAnimationRaw, light_index, i, L::AttenuationStart, v.f()),
+            attenuation_end_animation: ab!(kf, &mut v, &mut ctr, rs, LightAnimationRaw, light_index, i, L::AttenuationEnd, v.f()),
+            visibility_animation: ab!(kf, &mut v, &mut ctr, rs, LightAnimationRaw, light_index, i, L::Visibility, v.f()),
+            id: v.u(),
+            flags: M2LightFlags::from_bits_retain(v.u16() & 3),
+        });
+    }
+    m
+}
+
+// cross-version projections of the version-gated sections (common fields only)
+fn x_anims(a: &[M2Animation]) -> String {
+    ptok(&a.iter().map(|a| (a.animation_id, a.sub_animation_id, a.movement_speed.to_bits(), a.flags, a.frequency, a.padding)).collect::<Vec<_>>())
+}
+fn x_track<T>(t: &M2Track<T>) -> (u16, u16, u32, u32) {
+    (t.base.interpolation_type as u16, t.base.global_sequence, t.timestamps.count, t.values.count)
+}
+fn x_bones(b: &[M2Bone]) -> String {
+    ptok(&b.iter().map(|b| (b.bone_id, b.flags.bits(), b.parent_bone, b.submesh_id, x_track(&b.translation), x_track(&b.rotation), x_track(&b.scale), format!("{:?}", b.pivot))).collect::<Vec<_>>())
+}
+fn x_bonekf(r: &[BoneAnimationRaw]) -> String {
+    ptok(&r.iter().map(|r| (r.bone_index, format!("{:?}", r.track_type), r.timestamps.clone(), r.values.clone())).collect::<Vec<_>>())
+}
+fn x_cameras(cs: &[M2Camera]) -> String {
+    ptok(&cs.iter().map(|c| (c.camera_type, c.fov.to_bits(), c.far_clip.to_bits(), c.near_clip.to_bits(), format!("{:?}{:?}{:?}{:?}{:?}", c.position_animation, c.position_base, c.target_position_animation, c.target_position_base, c.roll_animation))).collect::<Vec<_>>())
+}
+fn x_ribbons(rs: &[M2RibbonEmitter]) -> String {
+    ptok(&rs.iter().map(|r| { let mut q = r.clone(); q.texture_slice = None; q.variation = None; q }).collect::<Vec<_>>())
+}
+fn x_particles(ps: &[M2ParticleEmitter]) -> String {
+    ptok(&ps.iter().map(|p| (p.id, p.flags.bits(), format!("{:?}", p.position), p.bone_index, p.texture_index, p.lifetime.to_bits(), p.emission_rate.to_bits(), p.gravity.to_bits(), p.unknown_1,
+        format!("{:?}{:?}{:?}", p.emission_speed_animation, p.color_animation, p.z_source_animation))).collect::<Vec<_>>())
+}
+fn views_tok(es: &[EmbeddedSkinRaw]) -> Value {
+    same(&es.iter().map(|e| (e.model_view.get(40..44).map(|s| s.to_vec()), e.indices.clone(), e.triangles.clone(), e.properties.clone(), e.submeshes.clone(), e.batches.clone())).collect::<Vec<_>>())
+}
+
+fn model_tokens(m: &M2Model) -> Value {
+    let h = &m.header;
+    let hx = ptok(&(h.flags.bits(), h.bounding_box_min, h.bounding_box_max, h.bounding_sphere_radius, h.collision_box_min, h.collision_box_max, h.collision_sphere_radius));
+    let ht = ptok(&(h.version, &hx));
+    let r = &m.raw_data;
+    let mut o = Map::new();
+    let mut put = |k: &str, v: Value| {
+        o.insert(k.to_string(), v);
+    };
+    put("header", pair(ht, hx));
+    put("name", same(&m.name));
+    put("global_sequences", same(&m.global_sequences));
+    put("animations", pair(ptok(&m.animations), x_anims(&m.animations)));
+    put("animation_lookup", same(&m.animation_lookup));
+    put("bones", pair(ptok(&m.bones), x_bones(&m.bones)));
+    put("bones+", pair(ptok(&r.bone_animation_data), x_bonekf(&r.bone_animation_data)));
+    put("key_bone_lookup", same(&m.key_bone_lookup));
+    put("vertices", same(&m.vertices));
+    put("textures", same(&m.textures));
+    put("materials", same(&m.materials));
+    put("bone_lookup_table", same(&r.bone_lookup_table));
+    put("texture_lookup_table", same(&r.texture_lookup_table));
+    put("texture_units", same(&r.texture_units));
+    put("transparency_lookup_table", same(&r.transparency_lookup_table));
+    put("texture_animation_lookup", same(&r.texture_animation_lookup));
+    put("bounding_triangles", same(&r.bounding_triangles));
+    put("bounding_vertices", same(&r.bounding_vertices));
+    put("bounding_normals", same(&r.bounding_normals));
+    put("attachment_lookup_table", same(&r.attachment_lookup_table));
+    put("camera_lookup_table", same(&r.camera_lookup_table));
+    put("views", views_tok(&r.embedded_skins));
+    put("particle_emitters", pair(ptok(&m.particle_emitters), x_particles(&m.particle_emitters)));
+    put("particle_emitters+", same(&r.particle_animation_data));
+    put("ribbon_emitters", pair(ptok(&m.ribbon_emitters), x_ribbons(&m.ribbon_emitters)));
+    put("ribbon_emitters+", same(&r.ribbon_animation_data));
+    put("texture_animations", same(&m.texture_animations));
+    put("texture_animations+", same(&r.texture_animation_data));
+    put("color_animations", same(&m.color_animations));
+    put("color_animations+", same(&r.color_animation_data));
+    put("transparency_animations", same(&m.transparency_animations));
+    put("transparency_animations+", same(&r.transparency_animation_data));
+    put("events", same(&m.events));
+    put("events+", same(&r.event_data));
+    put("attachments", same(&m.attachments));
+    put("attachments+", same(&r.attachment_animation_data));
+    put("cameras", pair(ptok(&m.cameras), x_cameras(&m.cameras)));
+    put("cameras+", same(&r.camera_animation_data));
+    put("lights", same(&m.lights));
+    put("lights+", same(&r.light_animation_data));
+    Value::Object(o)
+}
+
+fn res_of<T>(o: &Outcome<std::result::Result<T, wow_m2::M2Error>>) -> String {
+    match o {
+        Outcome::Done(r) => res_class(r),
+        Outcome::Panic(_) => "panic".into(),
+        Outcome::Hang => "hang".into(),
+    }
+}
+fn note_of<T>(o: &Outcome<std::result::Result<T, wow_m2::M2Error>>) -> String {
+    match o {
+        Outcome::Done(Err(e)) => normalise_digits(&format!("{e:?}")),
+        Outcome::Panic(m) => m.clone(),
+        _ => String::new(),
+    }
+}
+fn take<T>(o: Outcome<std::result::Result<T, wow_m2::M2Error>>) -> Option<T> {
+    match o {
+        Outcome::Done(Ok(v)) => Some(v),
+        _ => None,
+    }
+}
+
+fn write_model(m: &M2Model) -> Outcome<std::result::Result<Vec<u8>, wow_m2::M2Error>> {
+    guarded(|| {
+        let mut cur = Cursor::new(Vec::new());
+        m.write(&mut cur).map(|_| cur.into_inner())
+    })
+}
+fn parse_model(bytes: &[u8]) -> Outcome<std::result::Result<M2Model, wow_m2::M2Error>> {
+    guarded(|| {
+        parse_m2(&mut Cursor::new(bytes)).map(|f| match f {
+            M2Format::Legacy(m) => m,
+            M2Format::Chunked(m) => m,
+        })
+    })
+}
+
+// ---------------------------------------------------------------------------------------------
+// layer L: the independent array walker -- knows nothing but the numbers TLC emitted with the shape
+// ---------------------------------------------------------------------------------------------
+fn rd32(b: &[u8], p: usize) -> i64 {
+    if p + 4 <= b.len() { u32::from_le_bytes([b[p], b[p + 1], b[p + 2], b[p + 3]]) as i64 } else { -1 }
+}
+fn clamp31(v: i64) -> i64 {
+    v.min(0x7FFF_FFFF)
+}
+fn walk(bytes: &[u8], c: &Value) -> Value {
+    let mut arrs = Vec::new();
+    for sec in ga(c, "order") {
+        let sec = sec.as_str().unwrap();
+        let pos = c["hdrpos"][sec].as_i64().unwrap_or(-1);
+        if pos < 0 {
+            continue;
+        }
+        let elem = c["elem"][sec].as_i64().unwrap_or(1);
+        let (count, off) = (rd32(bytes, pos as usize), rd32(bytes, pos as usize + 4));
+        arrs.push(json!([sec, clamp31(count), clamp31(off), elem]));
+    }
+    Value::Array(arrs)
+}
+
+fn run_m2(t: &mut Vec<Value>, c: &Value, case: &str, seed: u64) {
+    let m = build_model(c, seed, case);
+    let from = gs(c, "ver");
+    let w = write_model(&m);
+    t.push(json!({"ev":"Write","case":case,"res":res_of(&w),"note":note_of(&w),"len":0,"tok":"","secs":model_tokens(&m)}));
+    let bytes = match take(w) {
+        Some(b) => b,
+        None => return,
+    };
+    let n = t.len() - 1;
+    t[n]["len"] = json!(bytes.len());
+    t[n]["tok"] = json!(tok(&bytes));
+    t.push(json!({"ev":"Arrays","case":case,"len":bytes.len(),"hsize":c["hsize"],"arrs":walk(&bytes, c)}));
+    let p = parse_model(&bytes);
+    let (pres, pnote) = (res_of(&p), note_of(&p));
+    let pm = take(p);
+    t.push(json!({"ev":"Parse","case":case,"res":pres,"note":pnote,"secs":pm.as_ref().map(model_tokens).unwrap_or(json!({}))}));
+    if let (Ok(sec), Some(pm)) = (std::env::var("C13_DUMP"), pm.as_ref()) {
+        // debugging aid (never used by the check): show both renderings of one section
+        let show = |m: &M2Model| -> String {
+            match sec.as_str() {
+                "vertices" => format!("{:?}", m.vertices),
+                "textures" => format!("{:?}", m.textures),
+                "bones" => format!("{:?}", m.bones),
+                "bones+" => format!("{:?}", m.raw_data.bone_animation_data),
+                "views" => format!("{:?}", m.raw_data.embedded_skins),
+                "events" => format!("{:?} {:?}", m.events, m.raw_data.event_data),
+                "attachments" => format!("{:?} {:?}", m.attachments, m.raw_data.attachment_animation_data),
+                "cameras" => format!("{:?} {:?}", m.cameras, m.raw_data.camera_animation_data),
+                "lights" => format!("{:?} {:?}", m.lights, m.raw_data.light_animation_data),
+                "particle_emitters" => format!("{:?} {:?}", m.particle_emitters, m.raw_data.particle_animation_data),
+                "ribbon_emitters" => format!("{:?} {:?}", m.ribbon_emitters, m.raw_data.ribbon_animation_data),
+                "animations" => format!("{:?}", m.animations),
+                _ => format!("{:?}", m.header),
+            }
+        };
+        eprintln!("IN : {}\nOUT: {}", elide_offsets(&show(&m)), elide_offsets(&show(pm)));
+    }
+    if let Some(pm) = pm {
+        let rw = write_model(&pm);
+        let (rres, rnote) = (res_of(&rw), note_of(&rw));
+        let rb = take(rw).unwrap_or_default();
+        t.push(json!({"ev":"Rewrite","case":case,"res":rres,"note":rnote,"len":rb.len(),"tok":tok(&rb)}));
+    }
+    let conv = M2Converter::new();
+    for (k, to) in ga(c, "convs").iter().enumerate() {
+        let to = to.as_str().unwrap();
+        let tv = version_of(to);
+        // both public entry points: the converter object (path planning) and the model's own method
+        let cv = if k % 2 == 0 { guarded(|| conv.convert(&m, tv)) } else { guarded(|| m.convert(tv)) };
+        let api = if k % 2 == 0 { "M2Converter::convert" } else { "M2Model::convert" };
+        let (cres, cnote) = (res_of(&cv), note_of(&cv));
+        let mut e = json!({"ev":"Convert","case":case,"from":from,"to":to,"api":api,"res":cres,"note":cnote,"secs":{},
+                           "wres":"skipped","wlen":0,"wtok":"","pres":"skipped","psecs":{}});
+        if let Some(cm) = take(cv) {
+            e["secs"] = model_tokens(&cm);
+            let cw = write_model(&cm);
+            e["wres"] = json!(res_of(&cw));
+            if let Some(cb) = take(cw) {
+                e["wlen"] = json!(cb.len());
+                e["wtok"] = json!(tok(&cb));
+                let cp = parse_model(&cb);
+                e["pres"] = json!(res_of(&cp));
+                if let Some(cpm) = take(cp) {
+                    e["psecs"] = model_tokens(&cpm);
+                }
+            }
+        }
+        t.push(e);
+    }
+}
+
+// ---------------------------------------------------------------------------------------------
+// skin files
+// ---------------------------------------------------------------------------------------------
+fn skin_tokens(s: &SkinFile) -> Value {
+    let mut o = Map::new();
+    o.insert("layout".into(), same(&s.is_new_format()));
+    o.insert("indices".into(), same(s.indices()));
+    o.insert("triangles".into(), same(s.triangles()));
+    o.insert("bone_indices".into(), same(s.bone_indices()));
+    o.insert("submeshes".into(), same(s.submeshes()));
+    o.insert("batches".into(), same(s.batches()));
+    let hdr = match s {
+        SkinFile::New(n) => format!("new {} {}", n.header.version, n.header.vertex_count),
+        SkinFile::Old(o) => format!("old {}", o.header.bone_count_max),
+    };
+    o.insert("header".into(), same(&hdr));
+    Value::Object(o)
+}
+fn build_skin(c: &Value, seed: u64, label: &str) -> SkinFile {
+    let mut v = Vals { rng: Rng::derive(seed, label), extreme: false, n: 0 };
+    let indices: Vec<u16> = (0..card(c, "indices")).map(|_| v.u16()).collect();
+    let triangles: Vec<u16> = (0..card(c, "triangles") * 3).map(|_| v.u16()).collect();
+    let bone_indices: Vec<u8> = v.bytes(4 * card(c, "bone_indices"));
+    let submeshes: Vec<SkinSubmesh> = (0..card(c, "submeshes")).map(|_| SkinSubmesh {
+        id: v.u16(), level: v.u16(), vertex_start: v.u16(), vertex_count: v.u16(), triangle_start: v.u16(), triangle_count: v.u16(),
+        bone_count: v.u16(), bone_start: v.u16(), bone_influence: v.u16(), center: [v.f(), v.f(), v.f()], sort_center: [v.f(), v.f(), v.f()], bounding_radius: v.f(),
+    }).collect();
+    let batches: Vec<SkinBatch> = (0..card(c, "batches")).map(|_| SkinBatch {
+        flags: v.u() as u8, priority_plane: (v.u() % 100) as i8, shader_id: v.u16(), skin_section_index: v.u16(), geoset_index: v.u16(), color_index: v.u16(),
+        material_index: v.u16(), material_layer: v.u16(), texture_count: v.u16(), texture_combo_index: v.u16(), texture_coord_combo_index: v.u16(),
+        texture_weight_combo_index: v.u16(), texture_transform_combo_index: v.u16(),
+    }).collect();
+    if gs(c, "layout") == "skin_new" {
+        let mut header = SkinHeader::new(version_of(gs(c, "ver")));
+        header.vertex_count = v.u() % 5000;
+        SkinFile::New(SkinG { header, indices, triangles, bone_indices, submeshes, batches })
+    } else {
+        let mut header = OldSkinHeader::new();
+        header.bone_count_max = 21 + v.u() % 40;
+        SkinFile::Old(SkinG { header, indices, triangles, bone_indices, submeshes, batches })
+    }
+}
+fn run_skin(t: &mut Vec<Value>, c: &Value, case: &str, seed: u64) {
+    let s = build_skin(c, seed, case);
+    let w = guarded(|| {
+        let mut cur = Cursor::new(Vec::new());
+        s.write(&mut cur).map(|_| cur.into_inner())
+    });
+    t.push(json!({"ev":"Write","case":case,"res":res_of(&w),"note":note_of(&w),"len":0,"tok":"","secs":skin_tokens(&s)}));
+    let bytes = match take(w) {
+        Some(b) => b,
+        None => return,
+    };
+    let n = t.len() - 1;
+    t[n]["len"] = json!(bytes.len());
+    t[n]["tok"] = json!(tok(&bytes));
+    t.push(json!({"ev":"Arrays","case":case,"len":bytes.len(),"hsize":c["hsize"],"arrs":walk(&bytes, c)}));
+    let p = guarded(|| SkinFile::parse(&mut Cursor::new(&bytes)));
+    let (pres, pnote) = (res_of(&p), note_of(&p));
+    let ps = take(p);
+    t.push(json!({"ev":"Parse","case":case,"res":pres,"note":pnote,"secs":ps.as_ref().map(skin_tokens).unwrap_or(json!({}))}));
+    if let Some(ps) = ps {
+        let rw = guarded(|| {
+            let mut cur = Cursor::new(Vec::new());
+            ps.write(&mut cur).map(|_| cur.into_inner())
+        });
+        let (rres, rnote) = (res_of(&rw), note_of(&rw));
+        let rb = take(rw).unwrap_or_default();
+        t.push(json!({"ev":"Rewrite","case":case,"res":rres,"note":rnote,"len":rb.len(),"tok":tok(&rb)}));
+    }
+}
+
+// ---------------------------------------------------------------------------------------------
+// anim files
+// ---------------------------------------------------------------------------------------------
+fn anim_tokens(a: &AnimFile) -> Value {
+    let mut o = Map::new();
+    o.insert("format".into(), same(&a.format));
+    o.insert("sections".into(), same(&a.sections));
+    o.insert("nsections".into(), same(&a.sections.len()));
+    let ids: Vec<u32> = match &a.metadata {
+        AnimMetadata::Modern { entries, .. } => entries.iter().map(|e| e.id).collect(),
+        AnimMetadata::Legacy { .. } => a.sections.iter().map(|s| s.header.id).collect(),
+    };
+    o.insert("ids".into(), same(&ids));
+    Value::Object(o)
+}
+fn build_anim(c: &Value, seed: u64, label: &str) -> AnimFile {
+    let mut v = Vals { rng: Rng::derive(seed, label), extreme: false, n: 0 };
+    let (ns, nb, data) = (gi(c, "nsec") as usize, gi(c, "nbones") as usize, gb(c, "data"));
+    let mut sections = Vec::new();
+    for si in 0..ns {
+        let mut bones = Vec::new();
+        for bi in 0..nb {
+            let has = data && bi != 1; // the middle bone of three stays without key frames
+            bones.push(AnimBoneAnimation {
+                bone_id: if has { 1 + v.u() % 200 } else { 0 },
+                translation: if has { Some(AnimTranslation { timestamps: vec![v.u() % 100, 100 + v.u() % 100], translations: vec![v.v3(), v.v3()] }) } else { None },
+                rotation: if has && bi == 0 { Some(AnimRotation { timestamps: vec![v.u() % 100], rotations: vec![Quaternion { x: v.f(), y: v.f(), z: v.f(), w: v.f() }] }) } else { None },
+                scaling: if has && bi == 2 { Some(AnimScaling { timestamps: vec![v.u() % 100], scalings: vec![v.v3()] }) } else { None },
+            });
+        }
+        sections.push(AnimSection { header: AnimSectionHeader { magic: *b"AFID", id: 10 + si as u32 + (v.u() % 7) * 16, start: v.u() % 1000, end: 1000 + v.u() % 1000 }, bone_animations: bones });
+    }
+    if gs(c, "format") == "modern" {
+        let entries = sections.iter().map(|s| AnimEntry { id: s.header.id, offset: 0, size: 0 }).collect();
+        let header = AnimHeader { magic: *b"MAOF", version: 1, id_count: ns as u32, unknown: 0, anim_entry_offset: 20 };
+        AnimFile { format: AnimFormat::Modern, sections, metadata: AnimMetadata::Modern { header, entries } }
+    } else {
+        AnimFile { format: AnimFormat::Legacy, sections, metadata: AnimMetadata::Legacy { file_size: 0, animation_count: ns as u32,
+            structure_hints: LegacyStructureHints { appears_valid: true, estimated_blocks: ns as u32, has_timestamps: data } } }
+    }
+}
+fn run_anim(t: &mut Vec<Value>, c: &Value, case: &str, seed: u64) {
+    let a = build_anim(c, seed, case);
+    let w = guarded(|| {
+        let mut cur = Cursor::new(Vec::new());
+        a.write(&mut cur).map(|_| cur.into_inner())
+    });
+    t.push(json!({"ev":"Write","case":case,"res":res_of(&w),"note":note_of(&w),"len":0,"tok":"","secs":anim_tokens(&a)}));
+    let bytes = match take(w) {
+        Some(b) => b,
+        None => return,
+    };
+    let n = t.len() - 1;
+    t[n]["len"] = json!(bytes.len());
+    t[n]["tok"] = json!(tok(&bytes));
+    // walker: MAOF entries (id, offset, size) at the positions TLC emitted; legacy files have no table to walk
+    let mut arrs = Vec::new();
+    if gs(c, "format") == "modern" {
+        for (j, p) in ga(c, "entrypos").iter().enumerate() {
+            let p = p.as_i64().unwrap() as usize;
+            arrs.push(json!([format!("sec{}", j + 1), clamp31(rd32(&bytes, p + 8)), clamp31(rd32(&bytes, p + 4)), 1]));
+        }
+    }
+    t.push(json!({"ev":"Arrays","case":case,"len":bytes.len(),"hsize":c["hsize"],"arrs":arrs}));
+    let p = guarded(|| AnimFile::parse(&mut Cursor::new(&bytes)));
+    let (pres, pnote) = (res_of(&p), note_of(&p));
+    let pa = take(p);
+    t.push(json!({"ev":"Parse","case":case,"res":pres,"note":pnote,"secs":pa.as_ref().map(anim_tokens).unwrap_or(json!({}))}));
+    if let Some(pa) = pa {
+        let rw = guarded(|| {
+            let mut cur = Cursor::new(Vec::new());
+            pa.write(&mut cur).map(|_| cur.into_inner())
+        });
+        let (rres, rnote) = (res_of(&rw), note_of(&rw));
+        let rb = take(rw).unwrap_or_default();
+        t.push(json!({"ev":"Rewrite","case":case,"res":rres,"note":rnote,"len":rb.len(),"tok":tok(&rb)}));
+    }
+}
+
+fn main() {
+    let a = args();
+    install_quiet_panic_hook();
+    let cases = read_cases(&a.cases);
+    let trace = Trace::create(&a.trace);
+    let seed = seed();
+    let only: Option<usize> = a.extra.first().and_then(|s| s.parse().ok());
+    for (ci, c) in cases.iter().enumerate() {
+        if let Some(o) = only {
+            if o != ci {
+                continue;
+            }
+        }
+        let kind = gs(c, "kind");
+        let case = format!("{ci}:{kind}");
+        let fmt = match kind {
+            "m2" => "m2".to_string(),
+            "skin" => gs(c, "layout").to_string(),
+            _ => format!("anim_{}", gs(c, "format")),
+        };
+        // class attributes of the case (for signatures): which sections are populated
+        let pop: Vec<String> = c.get("card").and_then(|x| x.as_object()).map(|o| o.iter().filter(|(_, n)| n.as_i64().unwrap_or(0) > 0).map(|(k, _)| k.clone()).collect()).unwrap_or_default();
+        let mut evs = vec![json!({"ev":"Reset","case":case,"kind":kind,"fmt":fmt,"slice":gs(c,"slice"),
+            "ver":c.get("ver").cloned().unwrap_or(json!("-")),"vn":c.get("vn").cloned().unwrap_or(json!(0)),
+            "kf":c.get("kf").cloned().unwrap_or(json!(false)),"floats":c.get("floats").cloned().unwrap_or(json!("normal")),
+            "pop":pop,"shape":c.get("card").cloned().unwrap_or(json!({"nsec":c.get("nsec"),"nbones":c.get("nbones"),"data":c.get("data")}))})];
+        match kind {
+            "m2" => run_m2(&mut evs, c, &case, seed),
+            "skin" => run_skin(&mut evs, c, &case, seed),
+            "anim" => run_anim(&mut evs, c, &case, seed),
+            _ => tool_error("unknown case kind"),
+        }
+        trace.block(evs);
+    }
+    trace.flush();
+}
